@@ -1228,3 +1228,64 @@ def gen_events():
     return ('events: loop body of _calculate_transition_events (np.roll comparison, wrap-around drop with its length guard, unique of the concatenation, '
             'row columns in DataFrame order) regenerated and proved equal to Model.C03.events_atom; shape of ffill/bfill/states_prev/states_next checked', ok,
             'ok' if ok else log[-600:])
+
+
+# ---------------------------------------------------------------- unit: weak_lru_cache decorator (C20)
+def weak_cache_unit():
+    """Facts of caching.py the state machine Model.C20 assumes: the cache is functools.lru_cache(maxsize, typed) on a function whose
+    first argument is weakref.ref(self) (key = weak reference + arguments, never the object), the wrapped function is called on the
+    dereferenced object, and the public wrapper passes arguments through unchanged."""
+    tree = _parse('caching.py')
+    f = _find_func(tree, None, 'weak_lru_cache')
+    args = [(a.arg, ast.unparse(d)) for a, d in zip(f.args.args, f.args.defaults)]
+    if args != [('maxsize', '128'), ('typed', 'False')]:
+        raise Unsupported('weak_lru_cache signature ' + str(args))
+    inner = [s for s in f.body if not (isinstance(s, ast.Expr) and isinstance(s.value, ast.Constant))]
+    if len(inner) != 2 or not isinstance(inner[0], ast.FunctionDef) or inner[0].name != 'wrapper' or ast.unparse(inner[1]) != 'return wrapper':
+        raise Unsupported('weak_lru_cache body')
+    w = inner[0]
+    if [a.arg for a in w.args.args] != ['func'] or len(w.body) != 3:
+        raise Unsupported('wrapper')
+    cached, public, ret = w.body
+    if not (isinstance(cached, ast.FunctionDef) and [ast.unparse(d) for d in cached.decorator_list] == ['functools.lru_cache(maxsize, typed)']
+            and [a.arg for a in cached.args.args] == ['_self'] and cached.args.vararg and cached.args.kwarg
+            and [ast.unparse(s) for s in cached.body] == [f'return func(_self(), *{cached.args.vararg.arg}, **{cached.args.kwarg.arg})']):
+        raise Unsupported('cached function: ' + ast.unparse(cached)[:160])
+    if not (isinstance(public, ast.FunctionDef) and [ast.unparse(d) for d in public.decorator_list] == ['functools.wraps(func)']
+            and [a.arg for a in public.args.args] == ['self'] and public.args.vararg and public.args.kwarg
+            and [ast.unparse(s) for s in public.body] == [f'return {cached.name}(weakref.ref(self), *{public.args.vararg.arg}, **{public.args.kwarg.arg})']):
+        raise Unsupported('public wrapper: ' + ast.unparse(public)[:160])
+    if ast.unparse(ret) != f'return {public.name}':
+        raise Unsupported('wrapper return')
+    # every use in the library: a bare @weak_lru_cache() on a method (default maxsize)
+    uses = {}
+    for fn in sorted(os.listdir(SRC)):
+        if not fn.endswith('.py'):
+            continue
+        for node in ast.walk(_parse(fn)):
+            if isinstance(node, ast.FunctionDef):
+                for d in node.decorator_list:
+                    if 'weak_lru_cache' in ast.unparse(d):
+                        if ast.unparse(d) != 'weak_lru_cache()':
+                            raise Unsupported(f'{fn}:{node.name} decorated with {ast.unparse(d)}')
+                        if not node.args.args or node.args.args[0].arg != 'self':
+                            raise Unsupported(f'{fn}:{node.name} is not a method')
+                        uses[f'{fn[:-3]}.{node.name}'] = True
+    return 128, sorted(uses)
+
+
+def gen_weak_cache():
+    os.makedirs(GEN, exist_ok=True)
+    try:
+        maxsize, uses = weak_cache_unit()
+    except Unsupported as e:
+        return ('weakcache', False, f'translator: unsupported {e}'), []
+    lines = ['(* GENERATED from /repo/src/gemdat/caching.py and every @weak_lru_cache() use on every run -- do not edit *)',
+             'From Coq Require Import List String.', 'Import ListNotations.', 'Open Scope string_scope.',
+             f'Definition gen_default_maxsize : nat := {maxsize}.',
+             f'Definition gen_cached_methods : list string := {_coq_strs(uses)}.',
+             'Lemma gen_maxsize_positive : gen_default_maxsize <> 0. Proof. discriminate. Qed.']
+    open(os.path.join(GEN, 'WeakCache.v'), 'w').write('\n'.join(lines) + '\n')
+    ok, log = compile_gen('WeakCache.v')
+    return ('weakcache: decorator structure (lru_cache keyed on weakref.ref(self) + arguments, call on the dereferenced object, pass-through wrapper, '
+            f'default maxsize {maxsize}) and the list of {len(uses)} cached methods, regenerated', ok, 'ok' if ok else log[-600:]), uses
